@@ -5,7 +5,7 @@ From TV Require Import Base.Prelude Base.Utf8 Base.Winnow Gen.Consts Spec.Abnf S
 From TV Require Import Model.Datetime Model.Numbers Model.Tree Model.Parse Model.Document Model.Write Model.Encode.
 From TV Require Import Proofs.SpansDefs Proofs.LexEquivBase Proofs.PrintBackBase Proofs.PrintBackEnc Proofs.PrintBackValue Proofs.PrintBackDoc Proofs.PrintBackSort
                        Proofs.PrintBackEnts Proofs.PrintBackDisplay Proofs.PrintBackSecs Proofs.PrintBackHKey Proofs.PrintBackFinal
-                       Proofs.PrintBackDVals Proofs.PrintBackDDisplay Proofs.PrintBackDAll Proofs.PrintBackDKey Proofs.PrintBackDItems.
+                       Proofs.PrintBackDVals Proofs.PrintBackDDisplay Proofs.PrintBackDAll Proofs.PrintBackDKey Proofs.PrintBackIValue Proofs.PrintBackDItems.
 Require Import Lia ZifyBool ZifyN ZifyNat Sorting.Sorted Sorting.Permutation.
 
 Definition kdummy : key := mkKey [] None decor_default decor_default.
@@ -109,11 +109,11 @@ Proof. unfold printed. rewrite filter_app, flat_map_app, map_app. reflexivity. Q
 Lemma printed_flat_map {A} (f : A -> list entry) l : printed (flat_map f l) = flat_map (fun x => printed (f x)) l.
 Proof. unfold printed. rewrite filter_flat_map', flat_map_flat_map', map_flat_map'. reflexivity. Qed.
 
-Lemma print_items :
+Lemma print_items (Pv : value -> bool) :
   (forall v : value, True)
-  /\ (forall it, forall k p, dsh_item it = true -> p <> [] -> (forall e, In e (ients it p) -> f2 e = true) ->
+  /\ (forall it, forall k p, dsh_item Pv it = true -> p <> [] -> (forall e, In e (ients it p) -> f2 e = true) ->
                  Permutation (printed (ients it p)) (TBit k it))
-  /\ (forall t, forall p a, dsh_tbl t = true -> p <> [] -> (forall e, In e (ents t p a) -> f2 e = true) ->
+  /\ (forall t, forall p a, dsh_tbl Pv t = true -> p <> [] -> (forall e, In e (ents t p a) -> f2 e = true) ->
                 Permutation (printed (ents t p a)) (if t_dotted t then TBt t else ALL t a)).
 Proof.
   apply tree_ind3; try (intros; exact I).
@@ -150,14 +150,14 @@ Proof.
 Qed.
 
 (* Claim A: what is printed is, as a multiset, the items of the tree *)
-Theorem printed_all r : dsh_tbl r = true -> (forall e, In e (sub_ents (t_items r) []) -> f2 e = true) ->
+Theorem printed_all (Pv : value -> bool) r : dsh_tbl Pv r = true -> (forall e, In e (sub_ents (t_items r) []) -> f2 e = true) ->
   Permutation (map pfw (flat_map pit ((r, [], false) :: filter dvis (sub_ents (t_items r) [])))) (ALLI (t_items r)).
 Proof.
   intros Hs Hf. cbn [flat_map pit app]. rewrite map_app, pfw_lines. fold (printed (sub_ents (t_items r) [])).
   pose proof (proj2 (proj2 all_lines) r []) as HL1. rewrite <- HL1. apply Permutation_app_head. rewrite TBt_eq.
   rewrite dsh_tbl_eq in Hs. rewrite forallb_forall in Hs. unfold sub_ents, TBI. rewrite printed_flat_map. apply perm_flat_map_ext.
   rewrite Forall_forall. intros [k it] Hk. cbn [fst snd app].
-  apply (proj1 (proj2 print_items) it k [k] (Hs _ Hk)); [discriminate|]. intros e He. apply Hf. unfold sub_ents. apply in_flat_map. exists (k, it). auto.
+  apply (proj1 (proj2 (print_items Pv)) it k [k] (Hs _ Hk)); [discriminate|]. intros e He. apply Hf. unfold sub_ents. apply in_flat_map. exists (k, it). auto.
 Qed.
 
 (* ---- the print sequence and the checks on it ----------------------------------------------------------------------------- *)
@@ -264,7 +264,7 @@ Lemma tag_inj {A} (f : A -> N) : forall l1 l2 : list A, map (fun x => (f x, x)) 
 Proof. induction l1 as [|a l1 IH]; intros [|b l2] E; try discriminate; [reflexivity|]. cbn [map] in E. injection E as _ -> E. f_equal. apply IH, E. Qed.
 
 Theorem dsections_render s r tr (items : list sitem) :
-  dsh_tbl r = true -> t_dotted r = false -> t_decor r = decor_default -> t_position r = None -> uk2 (hkey s) r ->
+  dsh_tbl (vok s) r = true -> t_dotted r = false -> t_decor r = decor_default -> t_position r = None -> uk2 (hkey s) r ->
   Permutation (ALLI (t_items r)) (map fst items) -> Forall (sitem_ok s) items ->
   StronglySorted N.lt (map (fun it : sitem => ppos (fst it)) items) -> laid_out s r = true ->
   display_document (ttbl s r) tr = concat (map snd items) ++ raw_encode tr [].
@@ -273,11 +273,11 @@ Proof.
   apply andb_true_iff in Hlay as [Hlay Hwok]. apply andb_true_iff in Hlay as [Hf2 Hso].
   rewrite forallb_forall in Hf2, Hwok. apply sorted_ltb_ok in Hso.
   set (rest := sub_ents (t_items r) []) in *.
-  pose proof (sub_ents_dsh r Hs) as Hrest. fold rest in Hrest. rewrite Forall_forall in Hrest.
+  pose proof (sub_ents_dsh (vok s) r Hs) as Hrest. fold rest in Hrest. rewrite Forall_forall in Hrest.
   pose proof (proj2 (proj2 (ents_paths2 (hkey s))) r [] false Hu (Forall_nil _)) as Hpaths. rewrite ents_eq, Hnd in Hpaths. fold rest in Hpaths.
   cbn [app] in Hpaths. inversion Hpaths as [|? ? _ Hpaths']; subst. clear Hpaths. rewrite Forall_forall in Hpaths'.
   (* what is printed is what was read, as multisets *)
-  pose proof (printed_all r Hs Hf2) as PA.
+  pose proof (printed_all (vok s) r Hs Hf2) as PA.
   assert (PS : Permutation (map pfw (S_print r)) (map fst items)).
   { eapply Permutation_trans; [apply Permutation_map, S_print_perm|]. eapply Permutation_trans; [exact PA|exact Hperm]. }
   (* and in the same order *)
@@ -296,7 +296,7 @@ Proof.
       split; [right; apply filter_In; auto|]. cbn [pit]. destruct p; [congruence|]. left. reflexivity. }
     apply in_map_iff in Hin as ([x txt] & Ex & Hit). cbn [fst pfw] in Ex. rewrite Forall_forall in Hok. specialize (Hok _ Hit). subst x. cbn [sitem_ok] in Hok.
     destruct Hok as (start & q0 & lead & trail & Y & _ & Eq & Edec & _). rewrite Eq, Edec. split; [discriminate|split; discriminate]. }
-  rewrite (display_dsections s r tr Hs Hnd Hd Hp Hw). f_equal. unfold rest.
+  rewrite (display_dsections (vok s) s r tr Hs Hnd Hd Hp Hw). f_equal. unfold rest.
   change ((r, @nil key, false) :: filter dvis (sub_ents (t_items r) [])) with (vis_entries r).
   (* the text, item by item *)
   transitivity (concat (map (wtext s) (S_print r))).
@@ -307,7 +307,7 @@ Proof.
     induction L as [|x L IH]; [reflexivity|]. cbn [map concat flat_map]. rewrite map_app, concat_app, <- IH, detxt_pit. reflexivity. }
   f_equal. apply (map_pair_ext pfw fst (wtext s) snd _ _ ES). intros w [x txt] Hw0 Hit Ex. cbn [fst snd] in *.
   destruct (in_S_print r w Hw0) as (e & He & Hwe). rewrite Forall_forall in Hok. specialize (Hok _ Hit). specialize (Hwok _ Hw0).
-  assert (Hedsh : dsh_tbl (etbl e) = true /\ uk2 (hkey s) (etbl e)).
+  assert (Hedsh : dsh_tbl (vok s) (etbl e) = true /\ uk2 (hkey s) (etbl e)).
   { destruct He as [<- | He]; [split; assumption|]. apply filter_In in He as [He _]. split; [apply (Hrest e He)|apply (Hpaths' e He)]. }
   destruct Hedsh as [Hes Heu]. destruct e as [[t p] a]. unfold etbl in *. cbn [fst] in *. cbn [pit] in Hwe. apply in_app_iff in Hwe as [Hwe | Hwe].
   - (* a header *)
@@ -321,8 +321,83 @@ Proof.
     apply in_map_iff in Hwe as ([kp v] & <- & Hkv). cbn [wline fst snd pfw] in *. subst x. cbn [sitem_ok] in Hok.
     destruct Hok as (j0 & i0 & ja & jb & po & LS & r0 & Hj0 & Rj & ELS & HLS & Erepr & Eja & Hne & Epre & Hls & Hpo & Hk' & Hprom).
     pose proof (proj2 (proj2 (tv_paths2 (hkey s))) t [] Heu (Forall_nil _)) as Htp. rewrite Forall_forall in Htp. destruct (Htp _ Hkv) as [Hkne Hks]. cbn [fst] in *.
-    pose proof (proj2 (proj2 dsh_tv) t [] Hes) as Hpv. unfold pvals in Hpv. rewrite Forall_forall in Hpv. pose proof (Hpv _ Hkv) as Hv. cbn [snd] in Hv.
+    pose proof (proj2 (proj2 (dsh_tv (vok s))) t [] Hes) as Hpv. unfold pvals in Hpv. rewrite Forall_forall in Hpv. destruct (Hpv _ Hkv) as [Hv _]. cbn [snd] in Hv.
     cbn [wok] in Hwok.
     pose proof (kline_unique s j0 i0 ja jb (removelast kp) po (last kp kdummy) LS r0 Hj0 Rj ELS HLS Erepr Eja Hne Epre Hls Hpo Hks Hk' Hwok) as Eu.
     cbn [wtext]. rewrite <- (Hprom (removelast kp) Eu Hv). rewrite <- (app_removelast_last kdummy Hkne). reflexivity.
+Qed.
+
+(* ---- without the order and spelling checks: the same items, as a multiset ------------------------------------------------ *)
+Theorem dsections_struct s r tr (items : list sitem) :
+  dsh_tbl (vok s) r = true -> t_dotted r = false -> t_decor r = decor_default -> t_position r = None ->
+  Permutation (ALLI (t_items r)) (map fst items) -> Forall (sitem_ok s) items ->
+  forallb f2 (sub_ents (t_items r) []) = true ->
+  display_document (ttbl s r) tr = concat (map (wtext s) (S_print r)) ++ raw_encode tr []
+  /\ Permutation (map pfw (S_print r)) (map fst items).
+Proof.
+  intros Hs Hnd Hd Hp Hperm Hok Hf2. rewrite forallb_forall in Hf2.
+  set (rest := sub_ents (t_items r) []) in *.
+  pose proof (sub_ents_dsh (vok s) r Hs) as Hrest. fold rest in Hrest. rewrite Forall_forall in Hrest.
+  pose proof (printed_all (vok s) r Hs Hf2) as PA.
+  assert (PS : Permutation (map pfw (S_print r)) (map fst items)).
+  { eapply Permutation_trans; [apply Permutation_map, S_print_perm|]. eapply Permutation_trans; [exact PA|exact Hperm]. }
+  split; [|exact PS].
+  assert (Hw : Forall (fun e => dvis e = true -> t_position (etbl e) <> None /\ decor_some (t_decor (etbl e))) rest).
+  { apply Forall_forall. intros e He Hv. destruct (Hrest e He) as [_ Hpe]. destruct e as [[t p] a]. unfold epath, etbl in *. cbn [fst snd] in *.
+    assert (Hin : In (pfw (WH (t, p, a))) (map fst items)).
+    { apply (Permutation_in _ Hperm), (Permutation_in _ PA), in_map, in_flat_map. exists (t, p, a).
+      split; [right; apply filter_In; auto|]. cbn [pit]. destruct p; [congruence|]. left. reflexivity. }
+    apply in_map_iff in Hin as ([x txt] & Ex & Hit). cbn [fst pfw] in Ex. rewrite Forall_forall in Hok. specialize (Hok _ Hit). subst x. cbn [sitem_ok] in Hok.
+    destruct Hok as (start & q0 & lead & trail & Y & _ & Eq & Edec & _). rewrite Eq, Edec. split; [discriminate|split; discriminate]. }
+  rewrite (display_dsections (vok s) s r tr Hs Hnd Hd Hp Hw). f_equal. unfold rest.
+  change ((r, @nil key, false) :: filter dvis (sub_ents (t_items r) [])) with (vis_entries r).
+  assert (E : map (fun e => (epos e, detxt s e)) (vis_entries r) = map (on_snd (detxt s)) (map (fun e => (epos e, e)) (vis_entries r)))
+    by (rewrite map_map; reflexivity).
+  rewrite E, <- stable_sort_map, map_map. cbn [on_snd snd]. unfold S_print, sorted_entries.
+  generalize (stable_sort (map (fun e : entry => (epos e, e)) (vis_entries r))). intro L.
+  induction L as [|x L IH]; [reflexivity|]. cbn [map concat flat_map]. rewrite map_app, concat_app, <- IH, detxt_pit. reflexivity.
+Qed.
+
+Lemma tv_nonempty :
+  (forall v : value, True)
+  /\ (forall it, forall q, q <> [] -> Forall (fun kv : list key * value => fst kv <> []) (tvit it q))
+  /\ (forall t, forall p, Forall (fun kv : list key * value => fst kv <> []) (tv t p)).
+Proof.
+  apply tree_ind3; try (intros; exact I).
+  - intros; constructor.
+  - intros v _ q Hq. constructor; [exact Hq|constructor].
+  - intros t IH q Hq. cbn [tvit]. destruct (t_dotted t); [apply IH|constructor].
+  - intros; constructor.
+  - intros items d im dt pos sp IH p. rewrite tv_eq. cbn [t_items]. unfold tvi. rewrite Forall_forall in IH. apply Forall_forall. intros x Hx.
+    apply in_flat_map in Hx as ([k it] & Hk & Hx). cbn [fst snd] in Hx. specialize (IH _ Hk (p ++ [k])). cbn [snd] in IH.
+    assert (Hq : p ++ [k] <> []) by (destruct p; discriminate). specialize (IH Hq). rewrite Forall_forall in IH. apply IH, Hx.
+Qed.
+
+(* a printed item and the item read: the same text around the key path *)
+Definition same_around (t1 t2 : bytes) : Prop := exists A X Y B, t1 = A ++ X ++ B /\ t2 = A ++ Y ++ B.
+
+Lemma item_same s r w (it : sitem) : dsh_tbl (vok s) r = true -> In w (S_print r) -> sitem_ok s it -> pfw w = fst it ->
+  same_around (wtext s w) (snd it).
+Proof.
+  intros Hs Hw Hok Ex. destruct it as [x txt]. cbn [fst snd] in *. destruct (in_S_print r w Hw) as (e & He & Hwe).
+  pose proof (sub_ents_dsh (vok s) r Hs) as Hrest. rewrite Forall_forall in Hrest.
+  assert (Hes : dsh_tbl (vok s) (etbl e) = true).
+  { destruct He as [<- | He]; [exact Hs|]. apply filter_In in He as [He _]. apply (Hrest e He). }
+  destruct e as [[t p] a]. unfold etbl in *. cbn [fst] in *. cbn [pit] in Hwe. apply in_app_iff in Hwe as [Hwe | Hwe].
+  - destruct p as [|k0 p0]; [destruct Hwe|]. destruct Hwe as [<- | []]. cbn [pfw] in Ex. subst x. cbn [sitem_ok] in Hok.
+    destruct Hok as (start & q0 & lead & trail & Y & Est & Eq & Edec & Hat & ->).
+    exists (raw_encode (traw s lead) []), (hdr_text s (k0 :: p0) a), (hdr_open a ++ Y ++ hdr_close a), (raw_encode (traw s trail) [] ++ [x0a]).
+    cbn [wtext]. rewrite Edec. cbn [decor_new d_prefix d_suffix]. split; rewrite <- ?app_assoc; reflexivity.
+  - apply in_map_iff in Hwe as ([kp v] & <- & Hkv). cbn [wline fst snd pfw] in *. subst x. cbn [sitem_ok] in Hok.
+    destruct Hok as (j0 & i0 & ja & jb & po & LS & r0 & _ & _ & _ & _ & _ & _ & _ & _ & _ & _ & _ & Hprom).
+    pose proof (proj2 (proj2 (dsh_tv (vok s))) t [] Hes) as Hpv. unfold pvals in Hpv. rewrite Forall_forall in Hpv. destruct (Hpv _ Hkv) as [Hv _]. cbn [snd] in Hv.
+    assert (Hkne : kp <> []).
+    { pose proof (proj2 (proj2 tv_nonempty) t []) as Htp. rewrite Forall_forall in Htp. apply (Htp _ Hkv). }
+    set (k' := last kp kdummy) in *. set (ks := removelast kp).
+    assert (Ekp : kp = ks ++ [k']) by (apply app_removelast_last, Hkne).
+    pose proof (Hprom po eq_refl Hv) as Et. rewrite <- Et. rewrite Ekp. unfold wline. cbn [wtext fst snd]. unfold dline. cbn [fst snd]. rewrite !enc_split.
+    exists (decor_prefix (k_leaf (tkey s k')) (fst DEFAULT_KEY_DECOR)), (pre_text s ks k'), (pre_text s po k'),
+           (krepr s k' ++ decor_suffix (k_leaf (tkey s k')) (snd DEFAULT_KEY_DECOR) ++ [x3d]
+            ++ encode_value (S (value_size (tvalue s v))) (tvalue s v) DEFAULT_VALUE_DECOR ++ [x0a]).
+    split; rewrite <- ?app_assoc; reflexivity.
 Qed.
